@@ -91,10 +91,17 @@ func (s *gkvp) SerializeValueTo(pc *PrintCtx) {
 	// if sb.jsonMode {
 	// 	sb.appendRune('}')
 	// }
-	_ = serializeAttrs(pc, s.items)
+	// the items are shared with the caller and with every goroutine that
+	// logs this group: sort a copy, never the group's own slice
+	_ = serializeAttrs(pc, slices.Clone(s.items))
 }
 
 func (s Attrs) SerializeValueTo(pc *PrintCtx) {
+	// serializeAttrs sorts and de-duplicates its argument in place. Only the
+	// top-level slice of a record is owned by the call (poolAttrs); a nested
+	// one belongs to the caller or to the logger and may be printed by any
+	// number of goroutines at once, so it is copied first.
+	s = slices.Clone(s)
 	if pc.jsonMode {
 		// a group is a nested JSON object: braces around the members and
 		// no separator before the first one
